@@ -16,15 +16,22 @@ def main():
     prop, var, pkgdir, pattern = sys.argv[1:5]
     checks = [prop]
     what = ""
+    phase = "both"
     a = sys.argv[5:]
     while a:
         if a[0] == "--checks":
             checks = a[1].split(","); a = a[2:]
+        elif a[0] == "--confirm-only":
+            phase = "confirm"; a = a[1:]
+        elif a[0] == "--check-only":
+            phase = "check"; a = a[1:]
         elif a[0] == "--what":
             what = a[1]; a = a[2:]
         else:
             a = a[1:]
     src = f"/tmp/seed-{prop}/SEED/{var}"
+    if not os.path.isdir(src):
+        src = f"/tmp/seed7-{prop}/SEED/{var}"
     if not os.path.isdir(src):
         src = f"/verif/seeded/{prop}-{var}"   # already stored: re-run from the stored copy
     name = f"{prop}-{var}"
@@ -35,10 +42,15 @@ def main():
             shutil.copy(os.path.join(src, f), os.path.join(dst, f))
     meta = {"property": prop, "variant": var, "demo_pkg_dir": pkgdir, "demo_run": pattern, "needs_to_manifest": what, "ran": []}
     wt = f"/tmp/confirm-{name}"
-    run(f"git -C /repo worktree remove --force {wt}")
-    rc, out = run(f"git -C /repo worktree add --detach {wt} HEAD")
-    assert rc == 0, out
+    if phase == "check":
+        meta = json.load(open(os.path.join(dst, "meta.json")))
+    else:
+        run(f"git -C /repo worktree remove --force {wt}")
+        rc, out = run(f"git -C /repo worktree add --detach {wt} HEAD")
+        assert rc == 0, out
     try:
+        if phase == "check":
+            raise StopIteration
         rc, out = run(f"git apply {dst}/patch.diff", cwd=wt)
         meta["patch_applies"] = rc == 0
         if rc != 0:
@@ -64,10 +76,19 @@ def main():
         rc, out = run(cmd, cwd=wt)
         meta["demo_passes_without_change"] = rc == 0
         meta["ran"].append(f"{cmd} (without change): rc={rc}")
+    except StopIteration:
+        pass
     finally:
-        run(f"git -C /repo worktree remove --force {wt}")
+        if phase != "check":
+            run(f"git -C /repo worktree remove --force {wt}")
     confirmed = all(meta.get(k) for k in ("patch_applies", "suite_passes_with_change", "demo_fails_with_change", "demo_passes_without_change"))
     meta["confirmed"] = confirmed
+    if phase == "confirm":
+        meta.setdefault("check_results", {})
+        meta["detected"] = False
+        json.dump(meta, open(os.path.join(dst, "meta.json"), "w"), indent=1)
+        print(name, "confirmed", confirmed)
+        return
     # run checks against /repo with the patch applied
     results = {}
     rc, out = run(f"git -C /repo apply {dst}/patch.diff")
